@@ -247,6 +247,13 @@ fn boundary_case(case: u64, part: u64, stride: u64) -> CaseOut {
             format!("000{}", m),
             format!("#000{}", m),
             format!("x000{:x}", m),
+            // any number of zeros may stand behind the sign and the prefix: a long token need not be a large number
+            format!("{}{}", "0".repeat(18), m),
+            format!("#{}{}", "0".repeat(24), m),
+            format!("x{}{:x}", "0".repeat(20), m),
+            format!("0x{}{:X}", "0".repeat(33), m),
+            format!("0b{}{:b}", "0".repeat(40), m),
+            format!("o{}{:o}", "0".repeat(19), m),
         ];
         for s in spell {
             toks.push(s.clone());
